@@ -82,6 +82,15 @@ CLAIMED = {
             "MOSEK is not installed: a stand-in module (harness/fake/mosek) implements the documented conventions and solves "
             "the recorded SDP with cvxpy+CLARABEL; real MOSEK behaviour is an assumption.",
             "6.11"),
+    "C12": ("TLC model checking of spec/Registry.tla (every class-level registry, NewPEP reset, 'forgotten registry' switches) "
+            "+ TLC-enumerated histories of model fragments run in one process before model B + TLC trace validation against B "
+            "in a fresh interpreter (RegistryTrace.tla)",
+            "Histories of up to 2-3 fragments out of 12 (solved, failed, abandoned, verbose, heuristic, referenced models) "
+            "followed by each of 6 models are enumerated by TLC and run; the registry snapshot right after PEP() (reflection "
+            "over all class attributes), the SHA-256 of the conic data and of the symbolic rows, and the value must equal "
+            "those of the same model in a fresh interpreter, bit for bit.",
+            "TLC 1.8; cvxpy get_problem_data as solver input; PYTHONHASHSEED=0.",
+            "6.12"),
     "C13": ("TLC model checking of spec/Pep.tla (epochs, caches, accumulation switches) + real solve/edit/evaluate sequences "
             "+ TLC trace validation across consecutive solves (SolveTrace.tla)",
             "Sequences of solves interleaved with edits and evaluations are enumerated by TLC, run on the real library, and "
